@@ -89,6 +89,8 @@ type PreserveSpec struct {
 type MonitorSpec struct {
 	Mutex  string
 	Fields []string
+	Call    string   // alternative form: any call with this selector ...
+	Targets []*SExpr // ... forgets these locations
 }
 
 type GhostDecl struct {
@@ -414,6 +416,22 @@ func ParseContracts(pkgPath, file string, text string) ([]*Contract, []*Def, err
 			} else {
 				cur.Sends = append(cur.Sends, CallSpec{Sel: f[0], Cl: cl})
 			}
+		case "interference":
+			// interference <callSelector> havocs <locations>   (e.g. a lock acquisition
+			// after which other goroutines may have changed the listed locations)
+			f := strings.SplitN(d.text, " ", 3)
+			if len(f) < 3 || f[1] != "havocs" {
+				return nil, nil, fail(d, fmt.Errorf("interference <callSelector> havocs <locations>"))
+			}
+			ms := MonitorSpec{Call: f[0]}
+			for _, part := range splitTop(f[2], ',') {
+				e, err := ParseSpec(strings.ReplaceAll(part, "[*]", "[0:]"))
+				if err != nil {
+					return nil, nil, fail(d, err)
+				}
+				ms.Targets = append(ms.Targets, e)
+			}
+			cur.Monitors = append(cur.Monitors, ms)
 		case "monitor":
 			// monitor <mutexField> guards <f1>, <f2>
 			f := strings.SplitN(d.text, " ", 3)
